@@ -295,7 +295,14 @@ def decSrc (c : Codec) (strict : Bool) : String :=
 def encSrc (c : Codec) (strict : Bool) : String :=
   if strict then s!"//encoding.{c.name}.encode" else s!"//encoding.{c.name}.encoder((strict: false))"
 
-def docLit (c : Codec) (escAll sp : Bool) (j : J) : String := bytesLit (J.text c.yaml escAll sp j)
+/-- the document as an arr.ai literal: a byte array, or (longer texts the literal syntax covers) a string —
+the decoders accept both -/
+def textLit (t : Key) : String :=
+  match strLit t with
+  | some lit => if t.length > 24 then "'" ++ lit ++ "'" else bytesLit t
+  | none => bytesLit t
+
+def docLit (c : Codec) (escAll sp : Bool) (j : J) : String := textLit (J.text c.yaml escAll sp j)
 
 /-- document cases: decode, decode∘encode∘decode, and the re-encoded document seen by the strict decoder -/
 def docCase (id : String) (c : Codec) (j : J) (mode : Nat) (escAll sp : Bool) : Case :=
@@ -426,7 +433,7 @@ def csvEncCase (id : String) (m : List (List Key)) : Case :=
 
 def csvDecCase (id : String) (t : Key) : Case :=
   let o := (Csv.decode t).obs
-  evalCase id "csv/decode-text" "good" s!"//encoding.csv.decode({bytesLit t})" o o
+  evalCase id "csv/decode-text" "good" s!"//encoding.csv.decode({textLit t})" o o
 
 /-! bits -/
 def genBitsN : Gen Nat := do
@@ -489,6 +496,17 @@ def floatDoc : Gen Key := do
     let a ← genNumText
     pure (keyOf "{\"k\": " ++ a ++ [125])
 
+/-- JSON strings written with \\uXXXX escapes that are lone surrogates (encoding/json reads U+FFFD) -/
+def surrogateDoc : Gen Key := do
+  let n ← rand 3
+  let parts ← genList (n + 1) (do
+    let r ← rand 4
+    if r == 0 then pure (uEsc 0xD800)
+    else if r == 1 then pure (uEsc 0xDFFF)
+    else if r == 2 then pure (uEsc 0xD83D ++ uEsc 0xDE00)
+    else pure [120])
+  pure ([34] ++ parts.flatten ++ [34])
+
 def floatCase (id : String) (c : Codec) (strict : Bool) (t : Key) : Case :=
   lawCase id (c.name ++ "/float-stream") "good"
     s!"let d = {bytesLit t}; let v = {decSrc c strict}(d); (l: v, r: {decSrc c strict}({encSrc c strict}(v)))"
@@ -529,9 +547,11 @@ def genCase (idx : Nat) (big : Bool) : Gen Case := do
     let k ← rand 5
     let s ← pickDistinct (List.range 53) k
     pure (bitsCase id (← rand 4) n s)
-  else
+  else if r < 99 then
     let c ← pick [jsonC, jsonC, yamlC]
     pure (floatCase id c (← chance 2 3) (← floatDoc))
+  else
+    pure { floatCase id jsonC (← chance 1 2) (← surrogateDoc) with stratum := "json/surrogate-escapes" }
 
 /-- witnesses of the repaired defects, of every known finding, and minimised past failures -/
 def corpus : List Case :=
@@ -579,6 +599,25 @@ def corpus : List Case :=
     docCase "C13-corpus-28" jsonC (.obj [([97], .num 1), ([97], .num 2)]) 0 false false,
     docCase "C13-corpus-29" jsonC (.str [0x1F600, 34, 92, 0, 0x2028]) 2 true false,
     docCase "C13-corpus-30" yamlC (.str [0x1F600, 34, 92, 0, 0x2028, 0x85]) 2 false false,
+    -- configuration forms of the codecs
+    evalCase "C13-corpus-34" "corpus" "good"
+      "//encoding.json.decode(//encoding.json.encode_indent((a: [1, (s: 'x<>&'), {'k': ()}])))"
+      (R.tuple [(kA, .arr 0 [.num 1, .tuple [(kS, s "x<>&")], .dict [(s "k", .tuple [])]])]).den.canon
+      (R.tuple [(kA, .arr 0 [.num 1, .tuple [(kS, s "x<>&")], .dict [(s "k", .tuple [])]])]).den.canon,
+    evalCase "C13-corpus-35" "corpus" "good"
+      "//encoding.json.decode(//encoding.json.encoder((indent: '  ', prefix: ' ', escapeHTML: true))((s: 'x<>&')))"
+      (R.tuple [(kS, s "x<>&")]).den.canon (R.tuple [(kS, s "x<>&")]).den.canon,
+    evalCase "C13-corpus-36" "corpus" "good"
+      "//encoding.yaml.decode(//encoding.yaml.encoder((indent: 2))({'k': (a: [1, (s: 'x')])}))"
+      (R.dict [(s "k", .tuple [(kA, .arr 0 [.num 1, .tuple [(kS, s "x")]])])]).den.canon
+      (R.dict [(s "k", .tuple [(kA, .arr 0 [.num 1, .tuple [(kS, s "x")]])])]).den.canon,
+    -- YAML block style (the text layer is yaml.v3's; the tree is what the model sees)
+    evalCase "C13-corpus-37" "corpus" "good"
+      "//encoding.yaml.decode('a:\\n  - 1\\n  - x\\n  - null\\nb: true\\n')"
+      (toArrai true (.obj [([97], .arr [.num 1, .str [120], .null]), ([98], .bool true)])).den.canon
+      (toArrai true (.obj [([97], .arr [.num 1, .str [120], .null]), ([98], .bool true)])).den.canon,
+    lawCase "C13-corpus-38" "corpus" "good"
+      "let m = [['a;b', 'c\\nd'], ['', 'e']]; (l: //encoding.csv.decoder((comma: 59))(//encoding.csv.encoder((comma: 59, crlf: true))(m)), r: m)",
     wireCase "C13-corpus-31" (.tuple [([97], R.newArray [s "x", .tt, .empty, .tuple []])]) ]
 
 def gen (seed n : Nat) (thorough : Bool) : List Case := Id.run do
